@@ -1,4 +1,4 @@
-HOOK_COMMITS = ["bcee830", "e3854df"]
+HOOK_COMMITS = ["bcee830", "e3854df", "f0d9fa9"]
 NOT_APPLICABLE = {}
 TB = ("Trusted base: TLC; the TLA+ model of the documented format (spec/Plenc*.tla, written from README / wire.go comments / golden files, "
       "cross-checked by its own design invariants); the harness's format-agnostic reflect builder/projector.")
@@ -116,14 +116,14 @@ CHECKS = {
                  "relation plus: only tags changed, gofmt-stable, type-checks, plenc builds a codec for every tagged struct, second run changes nothing, no crash.",
          "note": "Trusted base: TLC; go/parser, go/format, go/types and reflect.StructTag in the harness. Only files expressible in the abstract struct model are varied (DESIGN.md section 8). "
                  "Open finding F14b (multi-name declarations) is a named deviation."},
- "C07": {"technique": "TLA+ models of codec construction / publication (CodecBuild) and interning (Intern) model-checked over all interleavings; schedules replayed deterministically on the real library through verif yield hooks, results judged against the sequential specification and the hook logs validated action by action against CodecBuild / Intern (trace validation); race detector as an observer",
+ "C07": {"technique": "TLA+ models of codec construction / publication (CodecBuild), interning (Intern) and the key scratch pool (KeyPool) model-checked over all interleavings; schedules replayed deterministically on the real library through verif yield hooks, results judged against the sequential specification and the hook logs validated action by action against CodecBuild / Intern (trace validation); race detector as an observer",
          "text": "TLC checks NoIncompleteUse, RegistryClosed / RegistryComplete, SameResult and termination for every interleaving of 2-3 processes building codecs for "
                  "recursive, mutually recursive, nested and failing type families on a shared registry (and rejects, as a negative control, the protocol that published "
                  "wrappers during a build), and Transparent / TableSound / NoViews / Monotone for interning; thousands of preemption-bounded and random schedules over "
                  "ten families of concurrent first uses (incl. struct-keyed map decodes sharing the key scratch pool and interned fields) are replayed on fresh instances "
                  "with real goroutines parked at the hooks, every goroutine's result judged by TLC against the sequential specification, and the recorded (goroutine, yield point) "
                  "log of every schedule validated as a behaviour of CodecBuild (one action per segment; a lookup that hits where the model says the codec is not yet visible is a "
-                 "rejection) and of Intern (lock-free lookup, lock, re-check, publication); as a vacuity control the same logs must be rejected by the model of the pre-repair "
+                 "rejection), of Intern (lock-free lookup, lock, re-check, publication) and of KeyPool (a scratch buffer handed to a decoder while another still holds it is a rejection); as a vacuity control the same logs must be rejected by the model of the pre-repair "
                  "publication protocol; a sample of the schedules and a free-running stress run under the race detector.",
          "note": TB + " Atomicity is decided at the granularity of the yield hooks (commit bcee830, build tag verif); memory-model races are whatever the race detector reports on the driven executions."},
 }
